@@ -1028,10 +1028,12 @@ pub mod witness_c18 {
 
     fn run_in(dir: &std::path::Path) -> bool {
         let base = dir.join("base.redb");
-        let ns1 = NamespaceSecret::from_bytes(&[21u8; 32]);
-        let ns2 = NamespaceSecret::from_bytes(&[22u8; 32]);
-        let aa = Author::from_bytes(&[31u8; 32]);
-        let ab = Author::from_bytes(&[32u8; 32]);
+        // the records table is ordered by (namespace, author, key): make the LAST author of the first document
+        // also the (only) author of the second one, so that the same author is adjacent across documents
+        let (na, nb) = (NamespaceSecret::from_bytes(&[21u8; 32]), NamespaceSecret::from_bytes(&[22u8; 32]));
+        let (ns1, ns2) = if na.id().as_bytes() < nb.id().as_bytes() { (na, nb) } else { (nb, na) };
+        let (xa, xb) = (Author::from_bytes(&[31u8; 32]), Author::from_bytes(&[32u8; 32]));
+        let (aa, ab) = if xa.id().as_bytes() < xb.id().as_bytes() { (xa, xb) } else { (xb, xa) };
         let docs = [ns1.id(), ns2.id()];
         let now = std::time::SystemTime::now().duration_since(std::time::UNIX_EPOCH).unwrap().as_micros() as u64;
         let t = now - 1_000_000;
@@ -1044,8 +1046,8 @@ pub mod witness_c18 {
                 (&ns1, &aa, b"c", t - 5, false),
                 (&ns1, &ab, b"a", t - 3, false),
                 (&ns1, &ab, b"d", t + 1, true), // deletion marker is the newest of author B
-                (&ns2, &aa, b"z", t - 10, false),
-                (&ns2, &ab, b"", t - 7, false), // empty key
+                (&ns2, &ab, b"", t - 12, false), // empty key: parent of everything, so it must be the oldest
+                (&ns2, &ab, b"z", t - 10, false),
                 (&ns2, &ab, b"\xff\xff", t - 6, false),
             ];
             for ns in [&ns1, &ns2] {
@@ -1223,6 +1225,26 @@ pub mod witness_c06 {
         let before: Vec<Vec<u8>> = vec![b"ab".to_vec(), b"ac".to_vec()];
         let after: Vec<Vec<u8>> = vec![b"a".to_vec()];
         let mut bad = false;
+        {
+            // a read access (snapshot) between a write and the flush must not eat the durability of the write
+            let live = dir.join("snap-live.redb");
+            let image = dir.join("snap-image.redb");
+            std::fs::copy(&base, &live).unwrap();
+            let extra = Author::from_bytes(&[43u8; 32]);
+            {
+                let mut store = Store::new_impl(redb::Database::create(&live).unwrap()).unwrap();
+                store.import_author(extra.clone()).unwrap();
+                let _n = store.list_authors().unwrap().count();
+                let _m = store.list_namespaces().unwrap().count();
+                store.flush().unwrap();
+                std::fs::copy(&live, &image).unwrap();
+            }
+            let mut reopened = Store::new_impl(redb::Database::create(&image).unwrap()).unwrap();
+            if reopened.get_author(&extra.id()).unwrap().is_none() {
+                eprintln!("c06: an author imported before list_authors + flush is missing from the crash image taken after the flush");
+                bad = true;
+            }
+        }
         {
             // everything acknowledged before the flush is there after the process went away
             let mut store = Store::new_impl(redb::Database::create(&base).unwrap()).unwrap();
